@@ -1,0 +1,76 @@
+//go:build verif
+
+// Round 4, area B: exit / locking discipline of channels (C08), nsqd.New (C06). Checked by nsqvc. Comment-only file.
+
+package nsqd
+
+// ---- Channel.exitMutex: the exit flag is tested while the exit lock is held ---------------------------------------------------
+// PROPERTY TEXT (C08): "Deleting a channel ... disconnects its consumers ... All of these may run concurrently with publishing,
+// delivery, FIN/REQ/TOUCH, timeouts and each other without ... delivering discarded messages afterwards"; state: "exit flags and
+// exit mutex - channel/topic closing state".
+// Channel.exit() raises exitFlag inside exitMutex.Lock(); every operation that adds a subscriber or enqueues a message does it inside
+// exitMutex.RLock() AFTER having seen exitFlag == 0 inside that same section - so it either completes before exit() starts (and exit()
+// closes that subscriber / flushes or discards that message) or it is refused. A test of the flag made BEFORE the lock is taken says
+// nothing about the flag once the lock is held (exit() may have run completely in between).
+// Each call of Channel.Exiting() is recorded: how many so far, on which channel, what it answered, and whether the CALLER held
+// that channel's exitMutex (any mode) at that moment. Free ghosts: outside every frame (Exiting() is called on many paths).
+//@ ghost[free] r4BExitTests int
+//@ ghost[free] r4BExitTestChan *Channel
+//@ ghost[free] r4BExitTestSaw bool
+//@ ghost[free] r4BExitTestHeld bool
+// "the most recent exit test was made on c, inside the exitMutex section this function is in now, and answered: not exiting"
+//@ pred r4BSeenRunningUnderExitLock(c *Channel) := holds(c, "exitMutex") && r4BExitTests > atlock(r4BExitTests, "exitMutex") && r4BExitTestChan == c && r4BExitTestHeld && !r4BExitTestSaw
+
+// The lock item guards no field (exitFlag is read lock-free by lookupLoop and SUB for advisory purposes, and the contracts of exit /
+// Delete / Close speak about its pre- and post-value); it makes the lock mode of exitMutex known (holds / holdsw) and carries:
+//  [flag-changed-only-by-the-writer]  a section that changes exitFlag is a WRITE section (the readers' test is stable while they hold
+//                                     the read lock).
+//@ lock Channel.exitMutex
+//   (old(holdsw(..)) = the mode in which the section was entered: at the release itself the mutex already counts as not held)
+//@   guarantee[flag-changed-only-by-the-writer] self.exitFlag != old(self.exitFlag) ==> old(holdsw(self, "exitMutex"))
+
+// ---- nsqd.New: the data-path lock (C06 "A second nsqd pointed at a data path that is in use refuses to start") ----------------
+// PROPERTY TEXT (C06): the daemon object is handed out only if the exclusive, non-blocking flock on the data path was obtained; if
+// the directory cannot be opened or the flock is refused, New returns an error and NO daemon. New itself opens no file for writing,
+// renames nothing and creates no disk queue - no metadata or queue file is touched before the lock is held (apps/nsqd calls
+// LoadMetadata / PersistMetadata / Main only on the NSQD that New returned; that call order is outside the contracts). The only
+// file New may read is the TLS root CA file. The lock object is kept in n.dl (Exit releases it last).
+// Library calls of New assumed to touch no modelled state: the benign lines below (listeners, TLS material, contexts) and the
+// externs for (net.Listener).Addr / strings.Replace / net.JoinHostPort in .trusted/gmeta.spec.
+//@ benign os.Getwd, context.WithCancel, context.Background, github.com/nsqio/nsq/internal/http_api.NewClient, github.com/nsqio/nsq/internal/clusterinfo.New
+//@ benign (*sync/atomic.Value).Store, net.Listen, crypto/tls.Listen, crypto/tls.LoadX509KeyPair, crypto/x509.NewCertPool, (*crypto/x509.CertPool).AppendCertsFromPEM
+//@ benign github.com/nsqio/nsq/internal/version.String, github.com/nsqio/nsq/internal/util.TypeOfAddr, errors.New, fmt.Errorf
+
+//@ func buildTLSConfig(opts *Options) (*tls.Config, error)
+//@   props C06
+//@   nochan
+//@   requires opts != nil
+//@   ensures[reads-only-the-root-ca-file] (gReads == old(gReads) && gReadName == old(gReadName)) || (gReads == old(gReads) + 1 && gReadName == opts.TLSRootCAFile)
+//   (elems(byte): a fresh tls.Config carries array-typed fields, which live in the byte element store - engine gap, see notes)
+//@   modifies gReads, gReadName, gReadData, gReadErr, elems(byte)
+
+//@ func buildClientTLSConfig(opts *Options) (*tls.Config, error)
+//@   props C06
+//@   nochan
+//@   requires opts != nil
+//@   ensures[reads-only-the-root-ca-file] (gReads == old(gReads) && gReadName == old(gReadName)) || (gReads == old(gReads) + 1 && gReadName == opts.TLSRootCAFile)
+//   (elems(byte): a fresh tls.Config carries array-typed fields, which live in the byte element store - engine gap, see notes)
+//@   modifies gReads, gReadName, gReadData, gReadErr, elems(byte)
+
+//@ func New(opts *Options) (*NSQD, error)
+//@   props C06
+//@   nochan
+//@   requires opts != nil
+//@   ensures[one-lock-attempt] gDirOpens == old(gDirOpens) + 1 && (old(opts.DataPath) != "" ==> gDirOpenName == old(opts.DataPath))
+//@   ensures[daemon-only-with-the-lock] result1 == nil ==> result0 != nil && gDirOpenErr == nil && gFlocks == old(gFlocks) + 1 && gFlockErr == nil &&
+//@        gFlockHow == dirlock.gLockExNb() && gFlockFd == wrapI64(gFdOf(gDirOpenFile))
+//@   ensures[lock-refused-means-no-daemon] gDirOpenErr != nil || gFlockErr != nil ==> result0 == nil && result1 != nil
+//@   ensures[error-means-no-daemon] result1 != nil ==> result0 == nil
+//@   ensures[lock-object-kept] result1 == nil ==> result0.dl != nil && result0.dl.f == gDirOpenFile && result0.dl.f != nil
+//@   ensures[at-most-one-flock] gFlocks == old(gFlocks) || gFlocks == old(gFlocks) + 1
+//@   ensures[touches-no-metadata-or-queue-file] gfsOpens == old(gfsOpens) && gfsWrites == old(gfsWrites) && gfsRenames == old(gfsRenames) && dqCalls == old(dqCalls)
+//@   ensures[reads-only-the-root-ca-file] gReads != old(gReads) ==> gReadName == opts.TLSRootCAFile
+//@   ensures[empty-registry] result1 == nil ==> result0.topicMap != nil && len(result0.topicMap) == 0
+//@   loop 0
+//@     invariant[locked] n != nil && n.dl != nil && n.dl.f == gDirOpenFile && n.dl.f != nil && gDirOpenErr == nil && gFlockErr == nil
+//@     invariant[registry] n.topicMap != nil && len(n.topicMap) == 0
